@@ -197,7 +197,8 @@ class Run:
                 self.errors.append(f"conformance gate failed for {os.path.basename(hp)}: {diffs[:3]}")
         jobs = []
         for c in conds:
-            jobs.append((c, c.fn, False))
+            if c.fn is not None:  # fn=None: a reachability twin on its own
+                jobs.append((c, c.fn, False))
             if c.twin:
                 jobs.append((c, c.twin, True))
         # longest first
